@@ -81,7 +81,10 @@ def run(ctx):
     ctx.ob('column-order', init, init.node, ok,
            'the stored domain must be the domain whose attribute order the frame was selected by', construct='self.domain store')
     ok = bool(exits) and all(st.get('self.weights') == ('p', p_w) for _, st in exits)
-    ctx.ob('project-consistent', init, init.node, ok, 'the constructor must keep the weights it is given', construct='self.weights store')
+    detail = ''
+    if not ok:
+        ok, detail = weights_kept(init, p_w)
+    ctx.ob('project-consistent', init, init.node, ok, 'the constructor must keep the weights it is given' + detail, construct='self.weights store')
 
     # ---- project -----------------------------------------------------------------------------------
     proj = methods['project']
@@ -154,6 +157,37 @@ def run(ctx):
     check_domain(ctx)
 
 
+def weights_kept(init, w):
+    """`self.weights = None if <all weights are 1> else weights` keeps the weights (None counts every record once).
+    -> (ok, detail); raises AnalysisError for an unrecognised replacement"""
+    from ..engines.blockeval import BlockEval, T
+    from ..srcmodel import clone
+    be = BlockEval(init.qualname, loop_ok=lambda s_: True)
+    be.run(clone(init.body))
+    v = be.env.get('self.weights')
+    if not isinstance(v, ast.IfExp):
+        return False, ''
+    a, b = T(v.body), T(v.orelse)
+    test = v.test
+    if (a, b) == (w, 'None'):
+        test = ast.UnaryOp(op=ast.Not(), operand=test)
+    elif (a, b) != ('None', w):
+        return False, ''
+    # test: [w is not None and] ALLONES(w)
+    parts = test.values if isinstance(test, ast.BoolOp) and isinstance(test.op, ast.And) else [test]
+    parts = [p for p in parts if T(p) not in ('%sisnotNone' % w, '%s!=None' % w)]
+    if len(parts) != 1:
+        raise AnalysisError('Dataset.__init__: the weights are replaced by None under an unrecognised condition `%s`' % U(test))
+    t = T(parts[0])
+    all_ones = {'(%s==1).sum()==%s.size' % (w, w), '(%s==1).all()' % w, 'np.all(%s==1)' % w, 'np.all(%s==1.0)' % w, '(%s==1.0).all()' % w,
+                'np.array_equal(%s,np.ones(%s.size))' % (w, w), 'np.array_equal(%s,np.ones(len(%s)))' % (w, w), 'np.count_nonzero(%s!=1)==0' % w}
+    if t in all_ones:
+        return True, ''
+    if t in ('%s.sum()==%s.size' % (w, w), 'np.sum(%s)==%s.size' % (w, w), '%s.mean()==1' % w, '%s.sum()==len(%s)' % (w, w)):
+        return False, ': they are dropped when `%s`, which also holds for non-uniform weights that merely sum to the number of records' % U(parts[0])
+    raise AnalysisError('Dataset.__init__: the weights are replaced by None under an unrecognised condition `%s`' % U(parts[0]))
+
+
 def parallel(A, S):
     """is S the size tuple of the attribute tuple A, position by position?"""
     if A[0] == 'attrs' and S == ('shape', A[1]):
@@ -213,6 +247,29 @@ def check_domain(ctx):
             ctx.ob('order-filter', fi, r, v == want,
                    'Domain.%s must keep the domain\'s own attribute order: %s; returns `%s`' % (name, show(want), show(v)),
                    construct='result of ' + name)
+    # merge: this domain's attributes first (own order), then the other's new ones (the other's order)
+    fi = methods['merge']
+    o = fi.params[1]
+    ex = SeqExec(repo, fi, SELF)
+    OTHER = ('dom', o)
+    want_attrs = ('concat', ('attrs', SELF), ('filter', ('attrs', OTHER), True, ('attrs', SELF)))
+    for r, v in ex.return_values():
+        ok = False
+        why = show(v)
+        for alt in alternatives(v):
+            if alt[0] == 'Domain':
+                ok = alt[1] == want_attrs
+            elif alt == SELF:
+                # returning this very domain is the merge exactly when it already contains the other one
+                par = getattr(r, '_parent', None)
+                t = U(par.test).replace(' ', '') if isinstance(par, ast.If) and r in par.body else ''
+                ok = t in ('self.contains(%s)' % o, 'set(%s.attrs)<=set(self.attrs)' % o, 'set(%s.attrs).issubset(self.attrs)' % o)
+                why = 'self (when `%s`)' % t
+            else:
+                ok = False
+        ctx.ob('order-filter', fi, r, ok,
+               'Domain.merge must give this domain\'s attributes in its own order followed by the other domain\'s new attributes in theirs '
+               '(factor arithmetic lays its result out by it); returns %s' % why, construct='result of merge: ' + U(r)[:60])
     none_tests(ctx, DOM, 'Domain')
     check_size(ctx, methods['size'])
 
